@@ -223,11 +223,18 @@ class FaultRun(object):
         self.twin_outcome = PS.execute(twin_cls, prog)
         PS.forget_class(twin_cls)
         # decorated
-        self.zoo = zoo.Zoo(kinds=(cassette,), spy=True).__enter__()
+        self.async_cas = None
+        self.zoo = zoo.Zoo(kinds=('memory' if cassette == 'async' else cassette,), spy=True).__enter__()
         self.cas = self.zoo.cassettes[0]
         self.cas.fail_save = bool(flags.get('save_fails'))
         self.cas.slow_save_ms = flags.get('slow_save_ms', 0)
-        self.rec = TapeRecorder(self.cas, random_seed=seed)
+        rec_cas = self.cas
+        if cassette == 'async':
+            # the service records through the asynchronous wrapper (the spy is the wrapped storage)
+            from playback.tape_cassettes.asynchronous.async_record_only_tape_cassette import AsyncRecordOnlyTapeCassette
+            self.async_cas = rec_cas = AsyncRecordOnlyTapeCassette(self.cas, flush_interval=0.005)
+            rec_cas.start()
+        self.rec = TapeRecorder(rec_cas, random_seed=seed)
         if enabled:
             self.rec.enable_recording()
         self.W = PS.World('LIVE')
@@ -258,6 +265,8 @@ class FaultRun(object):
         else:
             self.outcome = PS.execute(self.cls, prog)
         self.t_after, self.utc_after = time.time(), datetime.datetime.utcnow()
+        if self.async_cas is not None:
+            self.async_cas.close()      # everything requested so far reaches the wrapped storage
         self.after = self.zoo.snapshot(self.cas)
         self.spy_log = list(self.cas.spy_log)
 
